@@ -19,8 +19,16 @@ TITLE = "Deduplication replaces only repeated points and gives up only after its
 # rows share coordinates on purpose: comparing only one column would conflate them
 # universe 3: large-scale rows, pairwise distinct but close in relative terms (a tolerance comparison would conflate them)
 ROWS = {1: [[0.1], [0.2], [0.3], [0.4]], 2: [[0.0, 0.0], [0.0, 1.0], [1.0, 0.0], [1.0, 1.0]],
-        3: [[250000.0, 3.0], [250001.0, 3.0], [250002.0, 3.0], [250000.0, 3.0000001]]}
-NCOLS = {1: 1, 2: 2, 3: 2}
+        3: [[250000.0, 3.0], [250001.0, 3.0], [250002.0, 3.0], [250000.0, 3.0000001]],
+        # universe 4: symbols 0 and 1 are the SAME point written with zeros of opposite sign (equal numerically, different bytes)
+        4: [[0.0, 0.25], [-0.0, 0.25], [0.5, 0.25], [0.0, 0.5]]}
+NCOLS = {1: 1, 2: 2, 3: 2, 4: 2}
+SAME = {4: {1: 0}}   # symbol -> the symbol it is numerically equal to
+
+
+def canon_script(script, cols):
+    m = SAME.get(cols, {})
+    return tuple(m.get(s, s) for s in script)
 HISTORIES = {"empty": [], "h1": [0], "h1h2": [0, 1], "h1h1h2": [0, 0, 1]}
 
 
@@ -130,7 +138,7 @@ def judge(script, hist, B, P, cols, impl, ref):
 def explore_cell(cell):
     cols, hname, B, P, first = cell["cols"], cell["hist"], cell["B"], cell["P"], tuple(cell["first"])
     hist = HISTORIES[hname]
-    sampler = _make_sampler(B, P)
+    sampler = _make_sampler(B, P)   # ONE object for the whole cell: state carried from one sample() call to the next would show
     res = {"evaluations": 0, "nontrivial": 0, "states": 0, "transitions": 0, "traces": 0, "stats": {}, "outcomes": set(), "violations": [], "samples": []}
     st = res["stats"]
     stack = [first]
@@ -138,13 +146,13 @@ def explore_cell(cell):
     while stack:
         script = stack.pop()
         impl = impl_run(sampler, script, hist, cols)
-        ref = ref_run(script, hist, B, P)
+        ref = ref_run(canon_script(script, cols), hist, B, P)
         res["transitions"] += 1
-        vs = judge(script, hist, B, P, cols, impl, ref)
+        vs = judge(canon_script(script, cols), hist, B, P, cols, impl, ref)
         for key, what in vs:
             if len(res["violations"]) < 5:
                 res["violations"].append({"key": key, "what": f"cols={cols} history={hname} B={B} passes={P} script={list(script)}: {what}",
-                                          "case": {"cols": cols, "hist": hname, "B": B, "P": P, "script": list(script)}})
+                                          "case": {"cols": cols, "hist": hname, "B": B, "P": P, "script": list(script), "first": list(first)}})
             st["violating_executions"] = st.get("violating_executions", 0) + 1
         if vs:
             continue
@@ -178,12 +186,17 @@ def explore_cell(cell):
 
 
 def replay_case(case):
+    """Re-runs the cell the case came from (one sampler object driven through the same scripts in the same order), so that a
+    violation which needs state left by an EARLIER sample() call on the object reproduces; reports what is found for this script."""
+    if "first" in case:
+        r = explore_cell({"cols": case["cols"], "hist": case["hist"], "B": case["B"], "P": case["P"], "first": case["first"]})
+        return [{"key": v["key"], "what": v["what"]} for v in r["violations"] if v["case"]["script"] == case["script"]]
     hist = HISTORIES[case["hist"]]
     sampler = _make_sampler(case["B"], case["P"])
     script = tuple(case["script"])
     impl = impl_run(sampler, script, hist, case["cols"])
-    ref = ref_run(script, hist, case["B"], case["P"])
-    return [{"key": k, "what": w} for k, w in judge(script, hist, case["B"], case["P"], case["cols"], impl, ref)]
+    ref = ref_run(canon_script(script, case["cols"]), hist, case["B"], case["P"])
+    return [{"key": k, "what": w} for k, w in judge(canon_script(script, case["cols"]), hist, case["B"], case["P"], case["cols"], impl, ref)]
 
 
 def main(ctx):
@@ -195,7 +208,7 @@ def main(ctx):
     # VERIF_SEED only rotates which history name is enumerated first (order), never what is covered
     hnames = list(HISTORIES)
     hnames = hnames[ctx.seed % len(hnames):] + hnames[:ctx.seed % len(hnames)]
-    for cols in (1, 2, 3):
+    for cols in (1, 2, 3, 4):
         for hname in hnames:
             for B, Ps in budget.items():
                 for P in Ps:
@@ -206,7 +219,7 @@ def main(ctx):
         for first in itertools.product(range(4), repeat=3):
             cells.append({"cols": 1, "hist": "h1h2", "B": 3, "P": 3, "first": list(first)})
     cells.sort(key=lambda c: -(4 ** (c["B"] * c["P"])))
-    ctx.bounds = {"universe": "h1,h2 (history), f1,f2 (fresh); rows as 1 column, 2 columns sharing coordinates, 2 columns at scale 2.5e5 (distinct but relatively close)", "histories": list(HISTORIES),
+    ctx.bounds = {"universe": "h1,h2 (history), f1,f2 (fresh); rows as 1 column, 2 columns sharing coordinates, 2 columns at scale 2.5e5 (distinct but relatively close), 2 columns where two symbols are the same point with zeros of opposite sign", "histories": list(HISTORIES),
                   "batch_size->pass budgets": {str(k): [min(v), max(v)] for k, v in budget.items()}, "cells": len(cells)}
     ctx.rule = ("systematic exploration of generator answers: every execution that asks for k more rows is extended by all 4^k tuples; "
                 "evaluations = complete executions (leaves), each standing for all scripts that extend its consumed prefix; "
